@@ -19,7 +19,7 @@ RULE = ('histories: 2-3 initial values (AnsiString and AnsiStr) followed by 3-12
 ASSUMPTIONS = ['a step that raises is skipped here (error discipline and atomic failure are C09); a history is abandoned after an '
                'undocumented exception (reported by C09)']
 
-CFG = gen.Cfg(esc=False, odd=0.12, invalid=True, incomplete=False, max_ops=2, max_text=8)
+CFG = gen.Cfg(esc=False, odd=0.12, invalid=True, incomplete=False, max_ops=2, max_text=8, rich=True, min_text=2)
 
 
 def freeze_settings(x):
